@@ -342,6 +342,10 @@ def core_workloads():
                 out.append(dict(state=st, feeder=[fa], readers=[[ra]], blocking=False))
         for ra, rb in (((("out", 64)), ("err", 64)), (("out", 64), ("out", 64)), (("err", 1), ("out", 64))):
             out.append(dict(state=st, feeder=[], readers=[[ra], [rb]], blocking=False))
+    # a few 3-thread workloads: both readers drain while the transport delivers data / EOF / close
+    both = dict(out=2, err=2, phase="open", fileno="first")
+    for fa in FEED_ACTS:
+        out.append(dict(state=both, feeder=[fa], readers=[[("out", 64)], [("err", 64)]], blocking=False))
     return out
 
 
@@ -471,8 +475,8 @@ def run(ctx):
             ctx.require("oracle_evaluations", 1)
             return
     stats = {}
-    t_core = ctx.pick(9, 160)
-    t_end = ctx.pick(18, 420)
+    t_core = ctx.pick(9, 170)
+    t_end = ctx.pick(16, 420)
 
     def perturbed(wl, n):
         for _ in range(n):
